@@ -842,6 +842,7 @@ func steerChoice(k int, rng interface{ IntN(int) int }) int64 {
 func TestCheck(t *testing.T) {
 	r := mon.Start(t, "C14")
 	defer r.Finish()
+	r.SpinWatch(memwire.BytesMoved)
 	r.Note("rule", "three parts. (1) grid of pairing (real<->real, reference initiator<->real server, real client<->reference responder) x scenario (client first, server payload coalesced with its key-establishment message, client payload coalesced with its message, both at once, idle gaps, lockstep with a quiescence judgement after every write) x reader chunk policy (all-available, 1, 3, 4, 8, 15, 16, 17, 23, 24, 25, PRNG, 4 KiB back-pressure window after the handshake) on the first direction with a rotating policy on the other; PRNG write scripts from {0,1,2,15,16,17,4096,65536,PRNG<3000} with virtual pauses; the real endpoints' own PADLEN draw steered to 0, 8192 and PRNG values, and every SEED of the connection (reference's and real ones) set to all-zero or all-ones, in part of the connections. (2) padding sweep: the reference sends every padding length of the tier's list in both roles, scenario and chunk policies rotating with the length. (3) non-conforming messages sent by the reference to a real server and to a real client: magic at Hamming distance 1 (all 32), byte-swapped/0/all-ones/PRNG magics, PADLEN in {8193, 8194, 65536, byte-swapped 8192, 2^31-1, 2^31, 2^32-1, PRNG > 8192}, both wrong, and conforming controls (PADLEN 0, 8192, PRNG) through the same driver, each under several chunk policies. Every real endpoint has one reader and one writer goroutine under the race detector; everything a real endpoint writes is also decoded passively by the reference from the wire transcript. Non-trivial = handshake completed and payload flowed (parts 1, 2) or a verdict accepted/rejected was reached (part 3); distinct = distinct parameter tuple.")
 	r.Note("exhaustive_part", fmt.Sprintf("reference padding lengths: %s; wrong magic values at Hamming distance 1: all 32, against both real roles", map[bool]string{false: "0, 1, 8191, 8192 and 64 PRNG values", true: "every value 0..8192 in both roles"}[r.Thorough()]))
 
@@ -899,6 +900,38 @@ func TestCheck(t *testing.T) {
 					bubble(c, p.String(), func() { runConn(c, r, p) })
 				}
 			}
+		})
+	}
+
+	// ---- part 1c: several connections alive at once in one process, used in
+	// an interleaved way (whatever a connection keeps between calls must be its own)
+	r.Note("interleaved_connections", "additional family (mon.Interleave): 3 real<->real connections alive at once in one bubble, driven round-robin from one goroutine: all endpoints write, then read in pieces of 1..24 bytes, one Read per endpoint per round, write again, drain; every direction carries its own PRF stream")
+	for g := 0; g < r.Pick(12, 200); g++ {
+		g := g
+		r.Case(fmt.Sprintf("interleaved-connections/%03d", g), func(c *mon.Case) {
+			bubble(c, fmt.Sprintf("interleaved group %d", g), func() {
+				var links []mon.Link
+				var wires []*memwire.Conn
+				for k := 0; k < 3; k++ {
+					cw, sw := memwire.Pair(memwire.Options{})
+					wires = append(wires, cw, sw)
+					var sc net.Conn
+					var serr error
+					done := make(chan struct{})
+					c.Go(func() { close(done) }, func() { sc, serr = realWrap(sw) })
+					cc, cerr := realDial(cw)
+					<-done
+					if cerr != nil || serr != nil {
+						c.Violation("handshake-failed/interleaved", fmt.Sprintf("%v / %v", cerr, serr), nil)
+						continue
+					}
+					links = append(links, mon.Link{Name: fmt.Sprintf("conn%d", k), A: cc, B: sc})
+				}
+				mon.Interleave(c, r, "interleaved-connections", links, r.Sub("il", g))
+				for _, w := range wires {
+					w.Close()
+				}
+			})
 		})
 	}
 
